@@ -2,7 +2,7 @@
    Statements only; proofs in ServerInv*_lemmas.v, ServerReach_lemmas.v, Skel_lemmas.v. *)
 From Coq Require Import ZArith List Bool.
 From Coq Require Import String.
-From GCA Require Import Wrap Bytes Codec Amap Timeslot Server ServerInv ServerReach_lemmas Skel SkelSpec Skel_lemmas SkelObligations.
+From GCA Require Import Wrap Bytes Codec Amap Timeslot Server ServerInv ServerDisk ServerReach_lemmas ServerFull_lemmas Skel SkelSpec Skel_lemmas SkelObligations.
 Import ListNotations.
 Open Scope Z_scope.
 
@@ -11,26 +11,26 @@ Section C12.
   Variable sign : bytes -> bytes -> bytes.
   Variable stats_sb : list devstat -> Z -> bytes.
 
-  (* from any state satisfying the invariant, NO datagram, request value, clock or impact datum
-     makes a critical section panic, and the invariant is re-established *)
-  Theorem c12_step_no_panic st o : MemInv (mm st) -> op_ok_nr o ->
-    MemInv (mm (fst (Server.step verify sign stats_sb st o))) /\ snd (Server.step verify sign stats_sb st o) <> Server.Panic.
-  Proof. exact (step_inv_nr verify sign stats_sb st o). Qed.
+  (* from any state satisfying the invariant (memory invariant + disk agreement), NO datagram,
+     request value, clock, impact datum or restart makes a critical section panic or start-up
+     fail, and the invariant is re-established *)
+  Theorem c12_step_no_panic st o : Inv verify st -> op_ok o ->
+    Inv verify (fst (Server.step verify sign stats_sb st o)) /\ snd (Server.step verify sign stats_sb st o) <> Server.Panic.
+  Proof. exact (step_inv verify sign stats_sb st o). Qed.
 
   (* hence along every history *)
-  Theorem c12_history_no_panic ops st : MemInv (mm st) -> Forall op_ok_nr ops ->
-    MemInv (mm (Server.run verify sign stats_sb st ops)) /\
+  Theorem c12_history_no_panic ops st : Inv verify st -> Forall op_ok ops ->
+    Inv verify (Server.run verify sign stats_sb st ops) /\
     Forall (fun o => o <> Server.Panic) (outs verify sign stats_sb st ops).
-  Proof. exact (run_inv_nr verify sign stats_sb ops st). Qed.
+  Proof. exact (run_inv verify sign stats_sb ops st). Qed.
 
   (* the first start on a directory holding only the temporary key, for any clock, including
      the multi-week catch-up configurations *)
   Theorem c12_first_start tk fresh now st0 : clock_ok now ->
     load verify (fresh_disk tk) fresh = LOk st0 ->
-    MemInv (mm st0) /\
-    MemInv (mm (fst (catch_up sign stats_sb (catchup_fuel now) st0 now))) /\
+    Inv verify (fst (catch_up sign stats_sb (catchup_fuel now) st0 now)) /\
     snd (catch_up sign stats_sb (catchup_fuel now) st0 now) = Quiet.
-  Proof. exact (first_start_inv verify sign stats_sb tk fresh now st0). Qed.
+  Proof. exact (first_start_full verify sign stats_sb tk fresh now st0). Qed.
 End C12.
 
 (* Shutdown: every blocking read on an accepted connection is preceded by a deadline on every path
